@@ -899,6 +899,9 @@ Proof. rewrite facts_lookup_prog, facts_register_prog. exact expect_sound_std. Q
 Lemma facts_call_view_reads_only : call_view_reads_only = true.
 Proof. reflexivity. Qed.
 
+Lemma facts_multiview_stateless : multiview_stateless = true.
+Proof. reflexivity. Qed.
+
 Lemma request_answer_sound : forall sro R0 tr j vs t tbl,
   expect sro lookup_prog register_prog (init R0) tr (fun _ => None) j = Some vs ->
   threads (exec sro lookup_prog register_prog tr (init R0)) j = Some t -> cont t = [] ->
@@ -906,7 +909,7 @@ Lemma request_answer_sound : forall sro R0 tr j vs t tbl,
 Proof.
   intros sro R0 tr j vs t tbl He Ht Hc.
   destruct (expect_sound sro R0 tr j vs t He Ht Hc) as [_ H].
-  unfold request_answer. rewrite facts_call_view_reads_only, H. reflexivity.
+  unfold request_answer. rewrite facts_call_view_reads_only, facts_multiview_stateless, H. reflexivity.
 Qed.
 
 (* ================= concrete world for examples and refutations ================= *)
